@@ -822,6 +822,8 @@ def _parse_phase_rest(
             if any(map(line.startswith, return_tokens)):
                 nxt_colon = line.find(":", 1)
                 val = line[nxt_colon + 1 :].strip()
+                if word_wrap:
+                    val = " ".join(map(str.strip, val.split("\n")))
                 if intermediate_repr["returns"] is None:
                     intermediate_repr["returns"] = OrderedDict((("return_type", {}),))
                 intermediate_repr["returns"]["return_type"].update(
@@ -845,6 +847,8 @@ def _parse_phase_rest(
                     param = [None, {}]
 
                 val = line[nxt_colon + 1 :].strip()
+                if word_wrap:
+                    val = " ".join(map(str.strip, val.split("\n")))
 
                 param = _set_name_and_type(
                     interpolate_defaults(
